@@ -13,6 +13,7 @@ def handle (toks : List String) : Option String :=
   match toks with
   | "c02.channels" :: _ => some "judge"
   | "c02.tamper" :: _ => some "judge"
+  | "c02.shardtraffic" :: _ => some "judge"
   | _ => none
 
 def oracle (toks : List String) (impl : String) : Option String :=
@@ -21,9 +22,44 @@ def oracle (toks : List String) (impl : String) : Option String :=
     if impl.startsWith "abort" || impl.startsWith "panic" || impl == "timeout" then
       some "fails honest malicious-mode query did not complete"
     else
-      let gates := impl.splitOn ","
-      match gates.find? (fun g => (classify (g.splitOn "/")).isNone) with
-      | some g => some s!"fails helper-to-helper channel not covered by any protection mechanism: {g}"
+      let fields := (impl.splitOn ",").map (·.splitOn "|")
+      -- helper-to-helper chunks: `<gate>|m|<src><dst>|<shard>`; shard-to-shard chunks `<gate>|x|…` are outside the
+      -- single-corrupt-helper threat model and are only listed (suite distribution / `shardClass`)
+      let evs : List Ev := fields.filterMap fun f =>
+        match f with
+        | [g, "m", sd, sh] =>
+          some { gate := g.splitOn "/", src := (sd.take 1).toString.toNat!, dst := (sd.drop 1).toString.toNat!, shard := sh }
+        | _ => none
+      match fields.find? (fun f => match f with | [_, "m", _, _] => false | [_, "x", _, _] => false | _ => true) with
+      | some f => some s!"fails malformed event {"|".intercalate f}"
+      | none =>
+      match evs.find? (fun e => (classify e.gate).isNone) with
+      | some e => some s!"fails helper-to-helper channel not covered by any protection mechanism: {"/".intercalate e.gate}"
+      | none =>
+      match evs.find? (fun e => (tag e).isNone) with
+      | some e => some s!"fails helper-to-helper channel belongs to no step of the execution order: {"/".intercalate e.gate}"
+      | none =>
+        let ts := evs.filterMap tag
+        match opensSeen ts, validateBeforeOpen ts, validatedAtAll ts, stepOrderScan ts [] with
+        | some w, _, _, _ => some s!"fails {w}"
+        | _, some w, _, _ => some s!"fails validate-before-open: {w}"
+        | _, _, some w, _ => some s!"fails {w}"
+        | _, _, _, some w => some s!"fails step order: {w}"
+        | none, none, none, none =>
+          match shuffleTrafficSeen ts, keysAfterRows ts with
+          | some w, _ => some s!"fails {w}"
+          | _, some w => some s!"fails keys-after-rows: {w}"
+          | none, none => some "holds"
+  | "c02.shardtraffic" :: _ =>
+    -- traffic between the shards of ONE helper: outside the single-corrupt-helper threat model, only classified.
+    -- Every gate must belong to a step of the execution order or be one of the resharding steps.
+    if impl.startsWith "abort" || impl.startsWith "panic" || impl == "timeout" then
+      some "fails honest malicious-mode query did not complete"
+    else if impl == "-" then some "holds"
+    else
+      let gates := (impl.splitOn ",").map fun x => ((x.splitOn ":").headD "").splitOn "/"
+      match gates.find? (fun g => (phaseOf g).isNone && !(["reshard_by_prf", "reshard_by_tag"].contains (g.headD ""))) with
+      | some g => some s!"fails unclassified shard-to-shard channel {"/".intercalate g}"
       | none => some "holds"
   | "c02.tamper" :: _ =>
     if impl.startsWith "abort-or-same" || impl == "untouched" then some "holds"
